@@ -54,6 +54,7 @@ static char sx_rule[64], sx_sig[200], sx_detail[600];
 static uint64_t sx_obs_hash;
 static struct { volatile int n; op_t ops[SX_MAXH]; volatile int phase; volatile int probe; } *sx_shm;  /* history in flight */
 static int sx_kdepth = 1;            /* last-k ops in the dedup key */
+static int sx_probe_all = 1;         /* run the probe suffixes after EVERY transition, not only on new keys: hidden damage can sit behind a merged key */
 static long sx_execs, sx_trans, sx_states, sx_probe_runs, sx_viol, sx_stateless_runs;
 static int sx_max_viol = 25;
 static double sx_deadline;           /* absolute, seconds */
@@ -196,11 +197,13 @@ static void sx_bfs(int maxdepth) {
                 op_t en2[256]; int nen2;
                 sx_trans++;
                 if (sx_run(&h, -1, en2, &nen2)) continue;
-                if (sx_set_add(&sx_set, &sx_set_cap, &sx_set_n, sx_state_key(&h))) {
+                int isnew = sx_set_add(&sx_set, &sx_set_cap, &sx_set_n, sx_state_key(&h));
+                int bad = 0;
+                if (isnew || sx_probe_all)
+                    for (int p = 0; p < SX->nprobes; p++) { sx_probe_runs++; if (sx_run(&h, p, NULL, NULL)) { bad = 1; break; } }
+                if (isnew) {
                     sx_states++;
                     if (sx_nsamples < 6 && (sx_states % 97 == 3 || d == maxdepth)) sx_samples[sx_nsamples++] = h;
-                    int bad = 0;
-                    for (int p = 0; p < SX->nprobes; p++) { sx_probe_runs++; if (sx_run(&h, p, NULL, NULL)) { bad = 1; break; } }
                     if (!bad && h.n < SX_MAXH - 1) sx_push(&nxt, &h);
                 }
             }
@@ -249,9 +252,9 @@ static int sx_worker(int depth, int sdepth, const char *replay) {
     printf(",\"config\":"); sx_json_str(stdout, SX->config_str ? SX->config_str() : "");
     printf(",\"states\":%ld,\"transitions\":%ld,\"executions\":%ld,\"probe_runs\":%ld,\"stateless_runs\":%ld,\"extra_runs\":%ld,\"distinct_outcomes\":%zu,"
            "\"violations\":%ld,\"bfs_depth_target\":%d,\"bfs_depth_complete\":%d,\"fixpoint\":%s,\"stateless_depth_complete\":%d,"
-           "\"capped\":%d,\"k_last_ops\":%d,\"wall_s\":%.2f,\"samples\":[",
+           "\"capped\":%d,\"k_last_ops\":%d,\"probes_on_every_transition\":%d,\"wall_s\":%.2f,\"samples\":[",
            sx_states, sx_trans, sx_execs, sx_probe_runs, sx_stateless_runs, sx_extra_runs, sx_oset_n, sx_viol, depth, sx_complete_depth,
-           sx_fixpoint ? "true" : "false", sx_stateless_depth_done, sx_capped, sx_kdepth, sx_now() - t0);
+           sx_fixpoint ? "true" : "false", sx_stateless_depth_done, sx_capped, sx_kdepth, sx_probe_all, sx_now() - t0);
     for (int i = 0; i < sx_nsamples; i++) { if (i) printf(","); sx_json_hist(stdout, &sx_samples[i]); }
     printf("]}\n"); fflush(stdout);
     return sx_viol ? 1 : 0;
@@ -268,6 +271,7 @@ static int sx_main(int argc, char **argv, const sx_harness *H) {
         else if (!strcmp(argv[i], "--deadline") && i + 1 < argc) dl = atof(argv[++i]);
         else if (!strcmp(argv[i], "--replay") && i + 1 < argc) replay = argv[++i];
         else if (!strcmp(argv[i], "--quiet")) sx_quiet = 1;
+        else if (!strcmp(argv[i], "--probe-new-only")) sx_probe_all = 0;
     }
     if (H->config) H->config(argc, argv);
     sx_deadline = sx_now() + dl;
